@@ -6,6 +6,7 @@ use vstd::std_specs::cmp::*;
 use std::mem;
 use std::fmt;
 verus! {
+global layout usize is size == 8;
 //@include period.rs
 //@include std_specs.rs
 //@include r_model.rs
